@@ -30,7 +30,10 @@ type verifProxy struct {
 func (p *verifProxy) SubmitCh() chan []byte { return p.submitCh }
 func (p *verifProxy) CommitBlock(b hg.Block) (proxy.CommitResponse, error) {
 	p.commits = append(p.commits, b)
-	return proxy.DummyCommitCallback(b)
+	resp, err := proxy.DummyCommitCallback(b)
+	// the application's state after this block (distinct per block)
+	resp.StateHash = []byte{byte(len(p.commits))}
+	return resp, err
 }
 func (p *verifProxy) GetSnapshot(blockIndex int) ([]byte, error) { return []byte("snap"), nil }
 func (p *verifProxy) Restore(snapshot []byte) error {
